@@ -339,6 +339,27 @@ theorem C18_no_extra_lost (lib : List Nat) (r : Nat) (f : File) (hwf : WF f) (hn
   · obtain ⟨h1, h2, h3, h4, h5, h6⟩ := done2_decode hinv.nodup (hnamed _ hp) h
     exact Or.inr ⟨mainOf r o, h1, view_mainOf r o, h2, h3, h4, h5, h6⟩
 
+/-- Resumability without a side condition: for every file, every interruption point `k` and any three
+invocations — also when the interrupted run was refused at an earlier step — re-running the upgrade on what was
+left gives the same file and the same outcome (success, or the same refusal) as an uninterrupted run, up to which
+invocation made the fresh ids and timestamps. (`C18_resumable` needed `hok`; since the repair a9c126b a failing
+step changes nothing, so a failed prefix is a shorter prefix.) -/
+theorem C18_resumable_total (lib : List Nat) (r1 r2 r3 k : Nat) (f : File) (hwf : WF f) :
+    (upgrade lib r2 (interrupt lib r1 k f).1).1.erase = (upgrade lib r3 f).1.erase ∧
+    (upgrade lib r2 (interrupt lib r1 k f).1).2 = (upgrade lib r3 f).2 := by
+  cases hi : interrupt lib r1 k f with
+  | mk g e =>
+    cases e with
+    | none =>
+      have := C18_resumable lib r1 r2 r3 k f hwf (by rw [hi])
+      rw [hi] at this
+      exact this
+    | some e =>
+      obtain ⟨j, _, hj⟩ := prefix_failure_is_interruption k f g e hwf hi
+      have := C18_resumable lib r1 r2 r3 j f hwf (by rw [hj])
+      rw [hj] at this
+      exact this
+
 /-- a property `a` with a reference text next to a property named `a.reference` -/
 def clash : File :=
   { version := [1, 1, 0], id := .absent,
